@@ -74,6 +74,7 @@ class SchedLock:
         if t is None:
             self.owner = None
             return
+        self.sched.before_release(t, self)
         self.sched.park('release', self)
         self.owner = None
 
@@ -147,6 +148,9 @@ class Sched:
             self.done[t] = True
             self.where[t] = 'done'
             self.ctl.set()
+
+    def before_release(self, t, lock):
+        """Hook: runs in the worker when it reaches `_lock.__exit__`, before it parks there."""
 
     def after_op(self, t, i, r):
         """Hook: runs in the worker right after operation i returned (same turn)."""
